@@ -206,11 +206,32 @@ def run_packmeta(facts, rep):
     body = facts.hir[pack]
     it = facts.items[pack]
     lw = [prm["pat"]["lid"] for prm in it["params"] if prm["pat"].get("k") == "PBind" and "LWECiphertext" in prm.get("ty", "")]
+    # element bindings of iterator adaptors over the inputs: lwes.iter().all(|l| ..), lwes.windows(2).for_each(|w| ..)
+    from facts import pat_bindings as _pb
+    clos_elems = set()
+    for x in walk(body):
+        if x.get("k") == "MCall" and x.get("args"):
+            src = root_local(x["recv"])
+            if src and src[0] in lw:
+                for a in x["args"]:
+                    a0 = strip(a)
+                    if a0.get("k") == "Closure":
+                        for prm in a0.get("params", []):
+                            for l, _ in _pb(prm.get("pat", prm)):
+                                clos_elems.add(l)
     n = 0
     for fld in copied:
         n += 1
         key = "pack/%s" % fld
         found = None
+        for y in walk(body):
+            refusing = (y.get("k") == "Macro" and y.get("name") in ("assert_eq", "assert", "assert_ne", "panic")) or \
+                       (y.get("k") == "If" and facts.ty(y["th"]) == "!")
+            if refusing and clos_elems:
+                cond = y if y.get("k") == "Macro" else y["c"]
+                if any(z.get("k") == "MCall" and z.get("name") == fld and (root_local(z["recv"]) or (None,))[0] in clos_elems
+                       for z in walk(cond)):
+                    found = y
         for lp in walk(body):
             if lp.get("k") != "For":
                 continue
